@@ -766,7 +766,7 @@ def run(ctx):
         for lay in LAYS:
             tasks.append((base, hid, 0, ops, None, "corpus-layout", None, dict(lay, cli_obs=True)))
             hid += 1
-    n_main, n_missing = (1500, 300) if thorough else (260, 50)
+    n_main, n_missing = (1500, 300) if thorough else (225, 45)
     for i_ in range(n_main):
         tail = {"p": rng.choice(PATHS), "k": rng.randrange(20)} if i_ % 3 == 0 else None
         lay = dict(rng.choice(LAYS), cli_obs=(i_ % 4 == 1)) if i_ % 5 != 0 else None     # 4 of 5 histories away from the plain layout
